@@ -69,7 +69,9 @@ impl Joypad {
     self.select_direction = value & 0x10 == 0;
     self.select_action = value & 0x20 == 0;
     let new_value = self.get_value() & 0x0f;
-    if new_value < prev_value {
+    // A change of selection can raise some lines and lower others at once:
+    // test each line for a high-to-low transition
+    if prev_value & !new_value != 0 {
       self.next_interrupt = InterruptFlag::joypad();
     }
   }
